@@ -5,7 +5,7 @@ PID = "C02"
 
 
 def run(v):
-    n, steps = (10, 30) if v.tier == "quick" else (400, 40)
+    n, steps = (24, 30) if v.tier == "quick" else (600, 40)
     D.run_db(v, PID, "c02", n, steps,
              "a concurrent application writer (multi-statement transactions stamping one version number into three tables on "
              "different pages, one in five rolled back) against litestream Sync / Replica.Sync / SyncAndWait / Checkpoint in 4 modes / "
